@@ -25,7 +25,7 @@ ASSUMPTIONS = [
     "a message is expired at t >= accept + lifetime (the property text: 'never at or after its lifetime has elapsed')",
     "all instants are dyadic rationals, so 'exactly at expiry' is an exact float comparison",
 ]
-PROBES = ["c16.overflow", "c16.expiry_made_room", "c16.send_at_exact_expiry", "c16.not_open", "c16.expired_never_sent", "c16.connect_at_exact_expiry"]
+PROBES = ["c16.expired_during_slow_flush", "c16.overflow", "c16.expiry_made_room", "c16.send_at_exact_expiry", "c16.not_open", "c16.expired_never_sent", "c16.connect_at_exact_expiry"]
 LIFETIMES = [0.25, 0.5, 1.0, 2.0, 5.0, 30.0]
 
 
@@ -48,6 +48,11 @@ def generate(rng, index: int, tier: str) -> dict:
         k = int((T_c - t_open) // 2.0)
         knobs["fates"] = [{"kind": "refuse", "latency": 0.0}] * k + [{"kind": "accept", "latency": (T_c - t_open) - 2.0 * k}]
     tl = [{"at": t_open, "op": "user.open"}]
+    # a slow flush: the connection that takes the backlog is under flow control from its first byte, so the messages
+    # behind the first one are only written once the window opens - some of them past their lifetime by then
+    stall = rng.choice([0.5, 2.0, 6.0]) if rng.random() < 0.3 else 0.0
+    if stall:
+        tl.append({"at": 0.0, "op": "net.stall_next", "duration": stall})
     expiries = []
     burst = rng.random() < 0.5
     for i, d in enumerate(msgs):
@@ -56,11 +61,13 @@ def generate(rng, index: int, tier: str) -> dict:
         at = G.pick_time(rng, lo, T_c + 1.0, anchors=expiries[-6:] + [T_c])
         if burst and i < 12:
             at = t_open + G.dyadic(rng, 0.0, 0.25)
+        if stall and at > T_c:
+            at += stall + 0.5  # nothing is submitted while the flush is suspended (the model below stays a list model)
         expiries.append(at + life)
         tl.append({"at": at, "op": "user.send", "msg": d, "policy": {"retries": rng.choice([0, 0, 2]), "lifetime": life}})
-    t_end = T_c + 2.0
+    t_end = T_c + stall + 2.0
     if rng.random() < 0.3:
-        t_close = T_c + 1.0
+        t_close = T_c + stall + 1.0
         tl.append({"at": t_close, "op": "user.close"})
         for d in sendq.distinct_messages(rng, gen, 60)[-2:]:
             if all(x.get("msg") != d for x in tl):
@@ -123,14 +130,20 @@ def execute(sc: dict) -> dict:
         probes["c16.overflow"] = 1
     if made_room:
         probes["c16.expiry_made_room"] = 1
+    stall = next((st["duration"] for st in sc["timeline"] if st["op"] == "net.stall_next"), 0.0)
     if T_c is not None:
+        now = T_c  # the instant at which the next held message is taken from the buffer
         for (s, e) in pending:
-            if e == T_c:
+            if e == now:
                 probes["c16.connect_at_exact_expiry"] = 1
-            if T_c < e:
+            if now < e:
                 expect_tx.append(s)
+                if stall and now == T_c:
+                    now = T_c + stall  # its write is held by flow control; the rest follow when the window opens
             else:
                 probes["c16.expired_never_sent"] = 1
+                if now > T_c:
+                    probes["c16.expired_during_slow_flush"] = 1
         want = [s["id"] for s in expect_tx]
         # frames of buffered messages actually seen on the wire, in wire order
         buffered_ids = {s["id"] for s in h.subs if s["t_accept"] is not None and s["t_accept"] < T_c}
